@@ -447,3 +447,20 @@ func VHNewSortedLong() {
 		vCover("newsorted long n >= 33")
 	}
 }
+
+// VHSortedString: String() lists the contents in order (concrete values).
+func VHSortedString() {
+	s := NewSortedOrdered(5, -2, 9, 5)
+	s.Add(0)
+	s.Remove(9)
+	got := vParseInts(s.String())
+	vAssert(len(got) == s.Len(), "String lists every element")
+	for i := range got {
+		if i < s.Len() {
+			vAssert(got[i] == s.Get(i), "String lists the elements in order")
+		}
+	}
+	var z Sorted[int]
+	vAssert(len(vParseInts(z.String())) == 0, "String of an empty Sorted lists nothing")
+	vCover("sorted string done")
+}
